@@ -173,7 +173,10 @@ func runWatchScenario(root string, sc watchScenario) (watchLine, error) {
 		// minimal number of notifications: one per maximal run of identical consecutive toml writes
 		min, prev := 0, ""
 		for _, w := range line.Writes {
-			if strings.HasSuffix(strings.ToLower(w), ".toml") && !strings.Contains(w, "/nested/") && w != prev {
+			if strings.Contains(w, "/nested/") { // raises no event on the four watches
+				continue
+			}
+			if strings.HasSuffix(strings.ToLower(w), ".toml") && w != prev {
 				min++
 			}
 			prev = w
